@@ -47,7 +47,7 @@ Answer(t, s) ==
 
 IsRead(s) == s.k \in {"pread", "rread", "sread"}
 WriteOf(s) == CASE s.k = "ins" -> [op |-> "ins", k |-> s.a, k2 |-> s.a, v |-> s.v]
-                [] s.k \in {"upd", "rupd"} -> [op |-> "upd", k |-> s.a, k2 |-> s.a, v |-> s.v]
+                [] s.k \in {"upd", "rupd", "supd"} -> [op |-> "upd", k |-> s.a, k2 |-> s.a, v |-> s.v]
                 [] s.k = "kupd" -> [op |-> "kupd", k |-> s.a, k2 |-> s.b, v |-> s.v]
                 [] s.k = "del" -> [op |-> "del", k |-> s.a, k2 |-> s.a, v |-> -1]
 
